@@ -118,9 +118,12 @@ type Session struct {
 	writeDeadline  atomic.Int64  // write deadline, in microseconds since Unix epoch
 	respDeadline   atomic.Int64  // client only: deadline of the next Read for a server response after a Write, in microseconds since Unix epoch
 	inputHasErr    atomic.Bool   // input has error
-	inputErr       chan error    // this channel is closed when input has error
-	outputHasErr   atomic.Bool   // output has error
-	outputErr      chan error    // this channel is closed when output has error
+	// closedByUnderlay is true if the session was closed by its underlay
+	// before the application or the peer closed it.
+	closedByUnderlay atomic.Bool
+	inputErr         chan error  // this channel is closed when input has error
+	outputHasErr     atomic.Bool // output has error
+	outputErr        chan error  // this channel is closed when output has error
 
 	sendQueue *segmentTree  // segments waiting to send
 	sendBuf   *segmentTree  // segments sent but not acknowledged
@@ -300,7 +303,7 @@ func (s *Session) Read(b []byte) (n int, err error) {
 				if s.recvQueue.Len() > 0 {
 					continue
 				}
-				if s.inputHasErr.Load() {
+				if s.inputHasErr.Load() || s.closedByUnderlay.Load() {
 					return 0, io.ErrUnexpectedEOF
 				}
 				return 0, io.EOF
@@ -407,9 +410,7 @@ func (s *Session) Close() error {
 // clean EOF.
 func (s *Session) closeByUnderlay() error {
 	if !s.closeRequested.Load() {
-		if s.inputHasErr.CompareAndSwap(false, true) {
-			close(s.inputErr)
-		}
+		s.closedByUnderlay.Store(true)
 	}
 	return s.Close()
 }
